@@ -658,6 +658,10 @@ B("packet type table turned into a tuple, the lookup still catches KeyError only
 N("packet type table turned into a tuple, the lookup catches IndexError", ALL,
   [(BASE, _PT_DICT, _PT_TUPLE),
    (BASE, "            packet_type_name = self.packetTypes[packet_type]\n        except KeyError as e:", "            packet_type_name = self.packetTypes[packet_type]\n        except IndexError as e:")])
+_INUSE_OLD = '        for windows in (self.windowPublish, self.windowPubRelease,\n                        self.windowSubscribe, self.windowUnsubscribe):\n            for window in windows.values():\n                if msgId in window:\n                    return True\n        for queue in self.queuePublishTx.values():\n            for request in queue:\n                if request.msgId == msgId:\n                    return True\n        return False\n'
+N("in-use scan written with any() over generator expressions", ALL, [(FAC, _INUSE_OLD, '        for windows in (self.windowPublish, self.windowPubRelease,\n                        self.windowSubscribe, self.windowUnsubscribe):\n            if any(msgId in window for window in windows.values()):\n                return True\n        return any(request.msgId == msgId for queue in self.queuePublishTx.values() for request in queue)\n')])
+B("in-use scan with any() whose generator filters out windows holding a single request", ["C17"], [(FAC, _INUSE_OLD, '        for windows in (self.windowPublish, self.windowPubRelease,\n                        self.windowSubscribe, self.windowUnsubscribe):\n            if any(msgId in window for window in windows.values() if len(window) > 1):\n                return True\n        return any(request.msgId == msgId for queue in self.queuePublishTx.values() for request in queue)\n')],
+  expect={"C17": ["ID-SCAN"]})
 N("handleCONNACK with the refusal branch first", ALL,
   [(BASE, "        if response.resultCode == 0:\n            self.state = self.CONNECTED\n            self.mqttConnectionMade()   # before the callbacks are executed ...\n            if request.keepalive != 0:\n                self._pingReq.keepalive = request.keepalive\n                self._pingReq.timer     = task.LoopingCall(self.ping)\n                self._pingReq.timer.start(request.keepalive)\n            request.deferred.callback(response.session)\n        else:\n",
     "        if response.resultCode == 0:\n            self.state = self.CONNECTED\n            self.mqttConnectionMade()   # before the callbacks are executed ...\n            keepalive = request.keepalive\n            if keepalive != 0:\n                self._pingReq.keepalive = keepalive\n                self._pingReq.timer     = task.LoopingCall(self.ping)\n                self._pingReq.timer.start(keepalive)\n            request.deferred.callback(response.session)\n        else:\n")])
